@@ -191,7 +191,9 @@ def run(ctx):
     from props import C09
     ctx.rule('L-ENUM', 'the dynamic-tag table a file gets is common + processor tags of its machine + OS tags of its OS ABI')
     ctx.guard('L-ENUM', 'd_tag', C09.check_tag_tables, ctx, w, ctx.tier == 'thorough')
-    ctx.floor('L-ENUM', 8)
+    from props import C01
+    ctx.guard('L-ENUM', 'sh_type/p_type', C01.check_enums, ctx, w, ctx.tier == 'thorough')
+    ctx.floor('L-ENUM', 40)
 
 
 EN, CO, DE, DC, DX = 'elf/enums.py', 'elf/constants.py', 'dwarf/enums.py', 'dwarf/constants.py', 'dwarf/dwarf_expr.py'
